@@ -1,15 +1,17 @@
 #!/bin/sh
 # usage: tools/seedcheck.sh <patch.diff> [property ...]   (default: every claimed property)
 # Applies a change to /repo, runs the quick checks in one process, prints what fires, reverts the tree.
+# REPO=<dir> and BIN=<hagcheck binary> select another (scratch) tree / checker build.
 set -u
+REPO=${REPO:-/repo}; BIN=${BIN:-/verif/bin/hagcheck}
 PATCH="$1"; shift
-cd /repo || exit 2
+cd "$REPO" || exit 2
 if [ -n "$(git status --porcelain)" ]; then echo "repo not clean"; exit 2; fi
 git apply "$PATCH" || { echo "patch does not apply"; exit 2; }
-trap 'git -C /repo checkout -- . ; git -C /repo clean -fdq' EXIT
+trap 'git -C "$REPO" checkout -- . ; git -C "$REPO" clean -fdq' EXIT
 PROPS="$*"
 if [ -z "$PROPS" ]; then PROPS=$(python3 -c "import json;print(' '.join(c['property_id'] for c in json.load(open('/verif/MANIFEST.json'))['checks']))"); fi
 OUT=$(mktemp -d)
-/verif/bin/hagcheck -property "$(echo $PROPS | tr ' ' ',')," -tier quick -out "$OUT" > "$OUT/all.log" 2>&1
+"$BIN" -property "$(echo $PROPS | tr ' ' ',')," -tier quick -repo "$REPO" -verif /verif -out "$OUT" > "$OUT/all.log" 2>&1
 awk '/^hagcheck property=/{split($2,a,"="); p=a[2]} /rule=[A-Za-z0-9-]+ site=/{sub(/^ +/,""); print p": "$0} /^UNDECIDED/{print}' "$OUT/all.log" | cut -c1-250 | sort -u
 rm -rf "$OUT"
